@@ -59,6 +59,12 @@ def faults_at(stream, pos, quick, rng):
     # a first frame announcing no more than it carries itself, then consecutive frames
     res.append(("shortFF", stream[:pos] + [(fid, bytes([0x10, 3, 1, 2, 3, 4, 5, 6])), (fid, bytes([0x21, 9, 9, 9])),
                                            (fid, bytes([0x22, 8, 8]))] + stream[pos:]))
+    # first frames with the 32 bit length (zero 12 bit length): a complete short transfer, one cut off, one too short
+    # to hold the 32 bit number (which is a transfer of length zero)
+    res.append(("escFF", stream[:pos] + [(fid, bytes([0x10, 0, 0, 0, 0, 9, 1, 2])), (fid, bytes([0x21, 3, 4, 5, 6, 7, 8, 9])),
+                                         (fid, bytes([0x22, 8, 8]))] + stream[pos:]))
+    res.append(("escFFcut", stream[:pos] + [(fid, bytes([0x10, 0, 0, 0, 1, 0, 1, 2])), (fid, bytes([0x21, 3, 4, 5, 6, 7, 8, 9]))] + stream[pos:]))
+    res.append(("escFFshort", stream[:pos] + [(fid, bytes([0x10, 0, 0, 0, 9])), (fid, bytes([0x21, 3, 4, 5]))] + stream[pos:]))
     return res
 
 
